@@ -60,6 +60,32 @@ DoWrap(st, op) ==
 
 DoDecor(st, op) == [st EXCEPT !.wr[op.w].dec = DecOf(op)]
 
+\* Populate (decoration/box_drawing.go): a custom decoration given by some of its
+\* fields is completed from key glyphs; c is the record of the fields that were set.
+\* (Beyond the listed properties: C03 only needs the result to be complete; a
+\* disagreement here is reported under the facet res.populate, which no check owns.)
+PopulateOf(c) ==
+  LET F(f, d) == IF f \in DOMAIN c /\ c[f] # "" THEN c[f] ELSE d
+      Horizontal == F("Horizontal", "H")
+      Vertical == F("Vertical", "V")
+      CrossPiece == F("CrossPiece", "X")
+      TopDown == F("TopDown", CrossPiece)
+      VBorder == F("VBorder", Vertical)
+      LeftBodyRule == F("LeftBodyRule", CrossPiece)
+      RightBodyRule == F("RightBodyRule", CrossPiece)
+  IN [CrossPiece |-> CrossPiece, HOuter |-> F("HOuter", Horizontal), HRule |-> F("HRule", Horizontal),
+      VHeader |-> F("VHeader", VBorder), VBodyBorder |-> F("VBodyBorder", VBorder), VBodyInner |-> F("VBodyInner", Vertical),
+      TopLeft |-> F("TopLeft", CrossPiece), TopRight |-> F("TopRight", CrossPiece),
+      BottomLeft |-> F("BottomLeft", CrossPiece), BottomRight |-> F("BottomRight", CrossPiece),
+      LeftBodyRule |-> LeftBodyRule, RightBodyRule |-> RightBodyRule,
+      HTopDown |-> F("HTopDown", TopDown), BTopDown |-> F("BTopDown", TopDown),
+      BBottomUp |-> F("BBottomUp", CrossPiece), HBCross |-> F("HBCross", CrossPiece),
+      HBLeft |-> F("HBLeft", LeftBodyRule), HBRight |-> F("HBRight", RightBodyRule)]
+
+PopulateBad(op) ==
+  "custom" \in DOMAIN op /\ "dec" \in DOMAIN op
+  /\ (op.dec.g # PopulateOf(op.custom) \/ op.dec.boxless # 0 \/ op.dec.empty # 0)
+
 \* the decoration registry as the scenario sees it: the built-in names plus what it registered
 BuiltinDecorNames == {"ascii-simple", "none", "utf8-light", "utf8-light-curved", "utf8-heavy", "utf8-double"}
 DoRegDecor(st, op) == [st EXCEPT !.reg = [n \in DOMAIN st.reg \cup {op.name} |-> IF n = op.name THEN op.dec ELSE st.reg[n]]]
@@ -663,6 +689,9 @@ BadResMore(s, ns, op, res) ==
        \* the wrapper renders with the decoration that was last set on it
        \cup (IF "dec" \in DOMAIN res /\ "w" \in DOMAIN op /\ res.dec # s.wr[op.w].dec THEN {"res.dec"} ELSE {})
   ELSE IF op.op = "decor" THEN (IF DecorByNameBad(s, op, res) THEN {"res.decor"} ELSE {})
+                               \cup (IF PopulateBad(op) THEN {"res.populate"} ELSE {})
+  ELSE IF op.op = "regdecor" THEN (IF PopulateBad(op) THEN {"res.populate"} ELSE {})
+  ELSE IF op.op = "solocmp" THEN (IF res.unequal # <<>> \/ res.compared = 0 THEN {"res.solo"} ELSE {})
   ELSE IF op.op = "renderall" THEN (IF AllBad(res) # {} THEN {"out.all"} ELSE {})
   ELSE IF op.op = "autonew" THEN (IF AutoBad(s, op.style, res.auto) # {} THEN {"res.auto"} ELSE {})
   ELSE IF op.op = "liststyles" THEN (IF StylesBad(s, res.styles) # {} THEN {"res.styles"} ELSE {})
